@@ -39,8 +39,19 @@ def _scan(pred) -> list[tuple[int, int]]:
     return out
 
 
-def category_intervals(cat) -> list[tuple[int, int]]:
-    """Intervals of the positive category (SPACE / DIGIT / WORD) for str patterns."""
+ASCII_CATS = {
+    "space": [(9, 13), (32, 32)],
+    "digit": [(48, 57)],
+    "word": [(48, 57), (65, 90), (95, 95), (97, 122)],
+}
+
+
+def category_intervals(cat, ascii_only: bool = False) -> list[tuple[int, int]]:
+    """Intervals of the positive category (SPACE / DIGIT / WORD) for str patterns (re.ASCII: the ASCII subsets)."""
+    if ascii_only:
+        if cat not in ASCII_CATS:
+            raise Unsupported(f"category {cat}")
+        return ASCII_CATS[cat]
     if cat not in _CAT_CACHE:
         if cat == "space":
             _CAT_CACHE[cat] = _scan(str.isspace)
@@ -90,7 +101,7 @@ def _union(a, b):
     return out
 
 
-def set_intervals(items) -> list[tuple[int, int]]:
+def set_intervals(items, ascii_only: bool = False) -> list[tuple[int, int]]:
     """Intervals matched by the items of an IN node."""
     neg = False
     iv: list[tuple[int, int]] = []
@@ -103,7 +114,7 @@ def set_intervals(items) -> list[tuple[int, int]]:
             iv = _union(iv, [(av[0], av[1])])
         elif o == C.CATEGORY:
             name, n = _cat(av)
-            civ = category_intervals(name)
+            civ = category_intervals(name, ascii_only)
             iv = _union(iv, _negate(civ) if n else list(civ))
         else:
             raise Unsupported(f"set item {o}")
@@ -123,6 +134,7 @@ def collect_atoms(tree, out: list) -> None:
                     out.append([(a2[0], a2[1])])
                 elif o2 == C.CATEGORY:
                     out.append(list(category_intervals(_cat(a2)[0])))
+                    out.append(list(category_intervals(_cat(a2)[0], True)))
         elif o == C.ANY:
             out.append([(10, 10)])
         elif o in (C.MAX_REPEAT, C.MIN_REPEAT, C.POSSESSIVE_REPEAT):
@@ -138,6 +150,7 @@ def collect_atoms(tree, out: list) -> None:
             out.append([(10, 10)])
         elif o == C.CATEGORY:
             out.append(list(category_intervals(_cat(av)[0])))
+            out.append(list(category_intervals(_cat(av)[0], True)))
 
 
 class Alphabet:
@@ -394,8 +407,9 @@ def _compile_item(B: Builder, o, av, k, ACC: set, at_start: bool, flags: int):
     import re
 
     A = B.alpha
-    if flags & (re.IGNORECASE | re.MULTILINE | re.VERBOSE | re.ASCII | re.LOCALE):
-        raise Unsupported("regex flags IGNORECASE/MULTILINE/VERBOSE/ASCII are not modelled")
+    if flags & (re.IGNORECASE | re.MULTILINE | re.VERBOSE | re.LOCALE):
+        raise Unsupported("regex flags IGNORECASE/MULTILINE/VERBOSE are not modelled")
+    ascii_only = bool(flags & re.ASCII)
     dotall = bool(flags & re.DOTALL)
     if o == C.LITERAL:
         s = B.new()
@@ -411,11 +425,11 @@ def _compile_item(B: Builder, o, av, k, ACC: set, at_start: bool, flags: int):
         return s
     if o == C.IN:
         s = B.new()
-        B.d(s, A.classes_of_intervals(set_intervals(av)), k)
+        B.d(s, A.classes_of_intervals(set_intervals(av, ascii_only)), k)
         return s
     if o == C.CATEGORY:
         name, n = _cat(av)
-        iv = category_intervals(name)
+        iv = category_intervals(name, ascii_only)
         s = B.new()
         B.d(s, A.classes_of_intervals(_negate(iv) if n else iv), k)
         return s
